@@ -25,6 +25,7 @@ class Result(object):
         self.violations = []
         self.samples = []
         self.keys = set()
+        self.capped = False  # stopped at max_states (a state space that does not converge): nothing is claimed beyond
 
     @property
     def closed(self):
@@ -32,7 +33,7 @@ class Result(object):
 
     def as_dict(self):
         return dict(states=self.states, transitions=self.transitions, max_depth=self.max_depth,
-                    closed=self.closed, unexpanded_at_bound=self.cut)
+                    closed=self.closed and not self.capped, unexpanded_at_bound=self.cut, stopped_at_state_cap=self.capped)
 
 
 def rebuild(spec, hist):
@@ -42,7 +43,7 @@ def rebuild(spec, hist):
     return st
 
 
-def _bfs(spec, roots, max_depth, dedup, res, collect_frontier_at=None, vio_cap=40):
+def _bfs(spec, roots, max_depth, dedup, res, collect_frontier_at=None, vio_cap=40, max_states=None):
     """roots: list of (history, state|None).  Returns frontier at collect_frontier_at if given."""
     use_fork = not getattr(spec, "replay", False)
     frontier = collections.deque(roots)
@@ -56,6 +57,10 @@ def _bfs(spec, roots, max_depth, dedup, res, collect_frontier_at=None, vio_cap=4
         if depth >= max_depth:
             res.cut += 1
             continue
+        if max_states is not None and res.states > max_states:
+            res.capped = True
+            res.cut += 1 + len(frontier)
+            return out
         base = st if use_fork else rebuild(spec, hist)
         for op in spec.ops(base, depth):
             nxt = spec.fork(base) if use_fork else rebuild(spec, hist)
@@ -83,7 +88,7 @@ def _bfs(spec, roots, max_depth, dedup, res, collect_frontier_at=None, vio_cap=4
     return out
 
 
-def explore(spec, max_depth, split_depth=1, dedup=True, workers=None):
+def explore(spec, max_depth, split_depth=1, dedup=True, workers=None, max_states=None):
     res = Result()
     root = spec.init()
     if dedup:
@@ -103,16 +108,17 @@ def explore(spec, max_depth, split_depth=1, dedup=True, workers=None):
         roots = []
         for h in share:
             roots.append((h, rebuild(spec, h)))
-        _bfs(spec, roots, max_depth, dedup, r)
+        _bfs(spec, roots, max_depth, dedup, r, max_states=max_states)
         keys = r.keys if len(r.keys) <= 3000000 else None
-        return (r.states, r.transitions, r.max_depth, r.cut, r.violations, r.samples, keys)
+        return (r.states, r.transitions, r.max_depth, r.cut, r.violations, r.samples, keys, r.capped)
 
     import os
     n = workers or (os.cpu_count() or 1)
     shares = par.chunks(hists, max(1, min(len(hists), n * 4)))
     union_ok = dedup
     sub_states = 0
-    for (s, t, md, cut, vs, smp, keys) in par.pmap(work, shares, workers=workers):
+    for (s, t, md, cut, vs, smp, keys, capped) in par.pmap(work, shares, workers=workers):
+        res.capped = res.capped or capped
         sub_states += s
         res.transitions += t
         res.max_depth = max(res.max_depth, md)
